@@ -81,4 +81,10 @@ def cEval : CExpr → Option (IType × Int)
     let t := usualArith t1 t2
     pure (t, convVal t (if vc ≠ 0 then v1 else v2))
 
+/-- c2mir `check`, N_COND with a constant condition (c2mir.c, `convert_value (e2|e3, &t); e->c = …`):
+the selected arm is converted to the common type of the two arms (hand model; tied to the code by
+the `conv`/`cexpr`/`fcexpr` units of the generated-program test) -/
+def foldCond (t1 t2 : IType) (c a b : W64) : W64 :=
+  castValue (usualArith t1 t2) (if c ≠ 0 then a else b)
+
 end MirVerif.CArith
